@@ -17,6 +17,8 @@ type vScript struct {
 	wa      [16]uint16
 	wv      [16]uint8
 	bound   int
+	shapes  int  // instruction shapes offered: 1 HALT, 2 NOP, 4 JP nn, 8 LD BC,nn (INC A always); 0 = all
+	cpu     *CPU // when set, the device may raise an NMI while an instruction is fetched
 }
 
 func (m *vScript) Get(addr uint16) uint8 {
@@ -30,18 +32,26 @@ func (m *vScript) Get(addr uint16) uint8 {
 	}
 	k := m.fetches
 	m.fetches++
+	if m.cpu != nil && vCase(vBoolN("nmi", k)) {
+		// raised while this instruction runs: honoured at the next boundary
+		m.cpu.Interrupt = NMIInterrupt()
+	}
+	sh := m.shapes
+	if sh == 0 {
+		sh = 15
+	}
 	// instruction shapes: HALT | NOP | JP nn | LD BC,nn | INC A
-	if vCase(vBoolN("halt", k)) {
+	if sh&1 != 0 && vCase(vBoolN("halt", k)) {
 		return 0x76
 	}
-	if vCase(vBoolN("nop", k)) {
+	if sh&2 != 0 && vCase(vBoolN("nop", k)) {
 		return 0x00
 	}
-	if vCase(vBoolN("jp", k)) {
+	if sh&4 != 0 && vCase(vBoolN("jp", k)) {
 		m.pending = 2
 		return 0xc3
 	}
-	if vCase(vBoolN("ld", k)) {
+	if sh&8 != 0 && vCase(vBoolN("ld", k)) {
 		m.pending = 2
 		return 0x01
 	}
@@ -83,8 +93,9 @@ func vErrKind(err error) int {
 	return 2
 }
 
-// bp: 0 = BreakPoints nil, 1 = arbitrary set with <= 2 members; k = max Steps
-func VC08Script(bp, k int) {
+// bp: 0 = BreakPoints nil, 1 = arbitrary set with <= 2 members; k = max Steps;
+// ints: 1 = the device may raise an NMI during any instruction (fewer shapes)
+func VC08Script(bp, k, ints int) {
 	var s States
 	vHavoc(&s, "s")
 	stale := vBool("stalehalt")
@@ -92,6 +103,10 @@ func VC08Script(bp, k int) {
 	d2 := &vScript{bound: k}
 	c1 := &CPU{States: s, Memory: d1, HALT: stale}
 	c2 := &CPU{States: s, Memory: d2, HALT: stale}
+	if ints == 1 {
+		d1.cpu, d2.cpu = c1, c2
+		d1.shapes, d2.shapes = 3, 3
+	}
 	if bp == 1 {
 		c1.BreakPoints = vMapU16Set("bp", 2)
 		c2.BreakPoints = vMapU16Set("bp", 2)
@@ -99,10 +114,15 @@ func VC08Script(bp, k int) {
 	err := c1.Run(context.Background())
 	wk, wsteps := vTwinRun(c2, k)
 	vAssert("result", vErrKind(err) == wk)
-	vAssert("steps", d1.fetches == wsteps)
-	vAssert("at-least-one-step", d1.fetches >= 1)
+	// same number of instructions started (an acceptance Step fetches none)
+	vAssert("steps", d1.fetches == d2.fetches)
+	if ints == 0 {
+		vAssert("steps-counted", d1.fetches == wsteps)
+		vAssert("at-least-one-step", d1.fetches >= 1)
+	}
 	vAssert("state", c1.States == c2.States)
 	vAssert("HALT", c1.HALT == c2.HALT)
+	vAssert("pending", (c1.Interrupt == nil) == (c2.Interrupt == nil))
 	vAssert("halted-means-nil", vImplies(vErrKind(err) == 0, c1.HALT))
 	vAssert("writes", d1.nw == d2.nw)
 	if d1.nw == d2.nw {
@@ -201,6 +221,22 @@ func VC08Prog(k int) {
 		s.IFF1 = false
 		vPut(bus1, 0x4000, 0xd3, 0x10, 0x00, 0x76)
 		dev = 2
+	case 12: // OUT raises an NMI, breakpoint on the handler entry 0x0066: reported there
+		s.PC = 0x4000
+		s.SP = 0x8000
+		vPut(bus1, 0x4000, 0xd3, 0x10, 0x00, 0x76)
+		vPut(bus1, 0x0066, 0x00, 0x76)
+		bps = map[uint16]struct{}{0x0066: {}}
+		dev = 1
+	case 13: // OUT raises a maskable request (mode 1), breakpoint on 0x0038
+		s.PC = 0x4000
+		s.SP = 0x8000
+		s.IM = 1
+		s.IFF1 = true
+		vPut(bus1, 0x4000, 0xd3, 0x10, 0x00, 0x76)
+		vPut(bus1, 0x0038, 0x00, 0x76)
+		bps = map[uint16]struct{}{0x0038: {}}
+		dev = 2
 	default: // conditional loop: DJNZ with B = 2, then HALT; breakpoint after the loop
 		s.PC = 0x4000
 		s.BC.Hi = 2
@@ -248,6 +284,10 @@ func VC08Prog(k int) {
 		vAssert("end", vAnd(vErrKind(err) == 0, vAnd(c1.HALT, vAnd(c1.PC == 0x4003, c1.Interrupt != nil))))
 	case 11:
 		vAssert("end", vAnd(vErrKind(err) == 1, vAnd(!c1.HALT, vAnd(c1.PC == 0x4002, c1.BC.Hi == 0))))
+	case 12:
+		vAssert("end", vAnd(vErrKind(err) == 1, vAnd(!c1.HALT, vAnd(c1.PC == 0x0066, c1.SP == 0x7ffe))))
+	case 13:
+		vAssert("end", vAnd(vErrKind(err) == 1, vAnd(!c1.HALT, vAnd(c1.PC == 0x0038, c1.SP == 0x7ffe))))
 	}
 	if again {
 		// Run again on the halted CPU: halts again at the same address, registers
